@@ -176,3 +176,162 @@ Example C04_ex_d33_refuted :
   hf_pos (dl_header_fetch false 23 76) = 23 /\ hf_loaded (dl_header_fetch false 23 76) = 25 /\
   hf_pos (dl_header_fetch true 23 76) = 25.
 Proof. vm_compute. repeat split; reflexivity. Qed.
+
+(* ==================================================================================== *)
+(** * LINK: the byte-level component models have the chunk-level effect of Dl/Update.v
+
+    [L.abs h fb f fl] is the abstraction of a byte-level state - header record [h] of B, the
+    file [fb] the server holds, the target file [f], the valid flags [fl] - into the
+    chunk-level [target]: one slot per index entry with the entry, the bytes of [fb] and
+    of [f] at its extent (fewer when the file ends inside it) and its flag; header region;
+    excess.  The typed hash [H] of the byte-level models and the two functions of the
+    chunk-level model are related by  Hc m = first ds bytes of H chunk-type m  (the bytes
+    memcmp looks at), likewise Hf;  [L.sized h]: every digest of [h] has the size of its
+    type.  Proved links: (a) validity scan and final data validation, (b) range
+    computation, (d) placement of a served request (single-range responses completely;
+    multipart responses from the placement facts of transfer_lit plus the two confinement
+    facts that are proved for dl_write_range only).  Not linked by a theorem (tied by the
+    real-tool runs only): (c) the copy from the old file, (e) the header fetch / parse. *)
+From ZV Require Format.Header Format.ParseProofs Read.Scan Read.ScanProofs Dl.Range Dl.DlWrite Dl.DlInv
+                Dl.DlPlace Dl.Multipart Dl.MpGrammar Dl.MpPlace Dl.LiteralMatcher Dl.MpFinal
+                Dl.UpdateLink Dl.UpdateLinkRange Dl.UpdateLinkPlace Dl.UpdateLinkCompose.
+From Coq Require Import Sorted.
+Module L := Dl.UpdateLink.
+Module LR := Dl.UpdateLinkRange.
+Module LP := Dl.UpdateLinkPlace.
+Module LC := Dl.UpdateLinkCompose.
+Module Sc := Read.Scan.
+Module Rg := Dl.Range.
+Module Wr := Dl.DlWrite.
+
+(** (a) validity scan.  For every header whose offsets are running sums, every target file
+    that holds at least the header, every flag list and context state: the byte-level model
+    of validate_checksums (hash.c; proved exact against its specification in C09_scan_exact)
+    terminates, leaves the file unchanged, and verdict and flags are exactly what
+    [find_valid] computes on the abstraction - including the invalidation of all chunks
+    when only the data digest fails and the rule for the empty first entry. *)
+Theorem C04_link_scan :
+  forall (H : N -> bytes -> bytes) (h : Format.Header.header) (fb f : bytes) (fl : list Z) (st : Sc.rstate),
+  Read.ScanProofs.scan_wf h f -> Format.Header.h_detached h = false -> L.sized h ->
+  exists r, Sc.validate_checksums H h f fl st = Some r /\
+    Sc.s_file r = f /\
+    find_valid (L.Hc_of H h) (L.Hf_of H h) (L.abs_new h fb) (t_slots (L.abs h fb f fl)) =
+      ((Sc.s_ret r =? 1)%Z, t_slots (L.abs h fb (Sc.s_file r) (Sc.s_flags r))).
+Proof. exact L.link_scan. Qed.
+Print Assumptions C04_link_scan.
+
+(** (a') final whole-data validation (zck_validate_data_checksum without the
+    uncompressed-source flag; with the flag it is the scan, C04_link_scan) *)
+Theorem C04_link_validate_data :
+  forall (H : N -> bytes -> bytes) (h : Format.Header.header) (fb f : bytes) (fl : list Z) (st : Sc.rstate),
+  Read.ScanProofs.scan_wf h f -> L.sized h -> Sc.uflag h = false ->
+  exists r, Sc.validate_data H h f fl st = Some r /\ Sc.s_file r = f /\ Sc.s_flags r = fl /\
+    validate_data (L.Hc_of H h) (L.Hf_of H h) (L.abs_new h fb) (t_slots (L.abs h fb f fl)) =
+      ((Sc.s_ret r =? 1)%Z, t_slots (L.abs h fb f fl)).
+Proof. exact L.link_validate_data. Qed.
+Print Assumptions C04_link_validate_data.
+
+(** (b) range computation.  For every slot list (= every chunk table with any flags), header
+    size and limit: the byte-level model of zck_get_missing_range (range.c with its
+    insertion walk, merge pass and size_t arithmetic; proved to compute its specification
+    in C10_refines_spec / C10_cover_prefix), run on the table the slots denote, returns
+    the merged extents of a list [cov] of (number, chunk) pairs, the range index of [cov]
+    and the item count, where the numbers of [cov] are exactly the indices
+    [missing_range] returns, the count is the count it returns, and every member of [cov] is
+    a missing chunk with stored bytes (zero-length chunks are passed over by both). *)
+Theorem C04_link_missing_range :
+  forall (hdr : N) (sl : list slot) (maxr : N),
+  0 < hdr -> hdr + Rg.total_len (LR.rtable 0 sl) < two64 ->
+  exists cov,
+    Rg.missing_range hdr (LR.rtable 0 sl) (Z.of_N maxr) =
+      (Rg.coalesce (Rg.extents hdr cov), Rg.entries cov, snd (missing_range maxr 0 0 None 0 sl)) /\
+    map fst cov = map N.of_nat (fst (missing_range maxr 0 0 None 0 sl)) /\
+    snd (missing_range maxr 0 0 None 0 sl) = N.of_nat (length (Rg.coalesce (Rg.extents hdr cov))) /\
+    Forall (fun nc => exists pre s post, sl = pre ++ s :: post /\ fst nc = N.of_nat (length pre) /\
+                      Rg.c_len (snd nc) = c_clen (s_chunk s) /\ Rg.c_len (snd nc) <> 0 /\
+                      is_missing s = true /\
+                      Rg.c_start (snd nc) = fold_right (fun s a => c_clen (s_chunk s) + a) 0 pre) cov.
+Proof. exact LR.link_missing_range. Qed.
+Print Assumptions C04_link_missing_range.
+
+(** ... read on the abstraction of a byte-level state: the table is the header's index with
+    the context's flags *)
+Theorem C04_link_missing_range_abs :
+  forall (h : Format.Header.header) (fb f : bytes) (fl : list Z) (maxr : N),
+  Read.ScanProofs.scan_wf h f ->
+  Sc.data_offset h + Rg.total_len (LC.htable (Format.Header.h_chunks h) fl) < two64 ->
+  let sl := t_slots (L.abs h fb f fl) in
+  exists cov,
+    Rg.missing_range (Sc.data_offset h) (LC.htable (Format.Header.h_chunks h) fl) (Z.of_N maxr) =
+      (Rg.coalesce (Rg.extents (Sc.data_offset h) cov), Rg.entries cov, snd (missing_range maxr 0 0 None 0 sl)) /\
+    map fst cov = map N.of_nat (fst (missing_range maxr 0 0 None 0 sl)) /\
+    snd (missing_range maxr 0 0 None 0 sl) = N.of_nat (length (Rg.coalesce (Rg.extents (Sc.data_offset h) cov))).
+Proof. exact LC.link_missing_range_abs. Qed.
+Print Assumptions C04_link_missing_range_abs.
+
+(** (d) placement.  Whenever the byte-level state after a transfer satisfies the
+    postcondition [LP.placed] (requested chunks valid with their bytes in place, other
+    flags unchanged: C05_placement / transfer_lit; table shape kept, no byte outside the
+    requested extents changed: C05_confinement), its abstraction is [place] applied to the
+    abstraction of the state before.  Extents are read with fread here (zero behind the end
+    of the file): the C05 theorems do not speak about the file length. *)
+Theorem C04_link_placed_is_place :
+  forall (H : bytes -> bytes) (ds : nat) (ul : nat -> N) (doff : N) (fb : bytes)
+         (ridx : list Wr.rentry) (tab0 : list Wr.chunk) (datas : list bytes) (file : bytes)
+         (tab' : list Wr.chunk) (file' : bytes),
+  Dl.DlPlace.req_ok doff ridx tab0 -> Dl.DlPlace.datas_ok H ridx tab0 datas ->
+  Forall (fun c => length (Wr.c_digest c) = ds) tab0 ->
+  StronglySorted lt (map Wr.r_tgt ridx) ->
+  LP.from_server doff fb ridx tab0 datas ->
+  LP.placed doff ridx tab0 datas file tab' file' ->
+  place (LP.Hc H ds) (map Wr.r_tgt ridx) 0 (LP.absr ul doff fb 0 tab0 file) = (LP.absr ul doff fb 0 tab' file', true).
+Proof. exact LP.placed_is_place. Qed.
+Print Assumptions C04_link_placed_is_place.
+
+(** (d) single-range responses: dl_write_range (model [dlw], C05) on the payload of a
+    well-formed response consumes it completely and the resulting state abstracts to
+    [place] of the request; by C05_any_partition every fragmentation into non-empty callbacks
+    ends in the same state. *)
+Theorem C04_link_place_single :
+  forall (H : bytes -> bytes) (ds : nat) (ul : nat -> N) (doff : N) (fb : bytes)
+         (ridx : list Wr.rentry) (tab0 : list Wr.chunk) (datas : list bytes) (fpos : N) (file : bytes),
+  Dl.DlPlace.req_ok doff ridx tab0 -> Dl.DlPlace.datas_ok H ridx tab0 datas ->
+  Forall (fun c => length (Wr.c_digest c) = ds) tab0 ->
+  StronglySorted lt (map Wr.r_tgt ridx) ->
+  LP.from_server doff fb ridx tab0 datas ->
+  let s' := fst (Wr.dlw H doff ridx (Dl.DlPlace.init fpos file tab0) (concat datas)) in
+  snd (Wr.dlw H doff ridx (Dl.DlPlace.init fpos file tab0) (concat datas)) = Wr.DOk (len (concat datas)) /\
+  place (LP.Hc H ds) (map Wr.r_tgt ridx) 0 (LP.absr ul doff fb 0 tab0 file) =
+    (LP.absr ul doff fb 0 (Wr.d_tab s') (Wr.d_file s'), true).
+Proof. exact LP.link_place_single. Qed.
+Print Assumptions C04_link_place_single.
+
+(** (d) multipart responses: every well-formed multipart body, delivered in any non-empty
+    fragments to the callbacks (literal matcher for the three patterns, C05), is processed
+    successfully, and - given that the table keeps its shape and no byte outside the
+    requested extents changes (C05_confinement proves this for dl_write_range; it is not
+    yet lifted to the multipart extractor) - the resulting state abstracts to [place]. *)
+Theorem C04_link_place_multipart_partial :
+  forall H ds ul doff fb ridx tab0 datas B parts fpos file pre quoted frags,
+  Dl.DlPlace.req_ok doff ridx tab0 -> Dl.DlPlace.datas_ok H ridx tab0 datas ->
+  Dl.MpPlace.wf_body B parts datas ->
+  Forall (fun c => c <> 0) pre ->
+  (forall k, (k < length pre)%nat ->
+     Dl.LiteralMatcher.prefix_ic Dl.LiteralMatcher.kw_boundary (skipn k (pre ++ Dl.LiteralMatcher.kw_boundary)) = false) ->
+  B <> [] -> (quoted = false -> hd 0 B <> 32 /\ hd 0 B <> 34) ->
+  len (Dl.MpGrammar.ct_line pre B quoted) < two64 ->
+  Forall (fun fr => fr <> []) frags -> concat frags = Dl.MpGrammar.mp_body B parts ->
+  Forall (fun c => length (Wr.c_digest c) = ds) tab0 ->
+  StronglySorted lt (map Wr.r_tgt ridx) ->
+  LP.from_server doff fb ridx tab0 datas ->
+  exists x' rets,
+    Dl.Multipart.feed_frags H doff ridx Dl.LiteralMatcher.lit_comp Dl.LiteralMatcher.lit_exec
+      (Dl.Multipart.header_cb Dl.LiteralMatcher.lit_comp Dl.LiteralMatcher.lit_exec
+         (Dl.MpFinal.x_start fpos file tab0) (Dl.MpGrammar.ct_line pre B quoted)) frags = (x', rets, true) /\
+    (Dl.DlInv.same_shape tab0 (Wr.d_tab (Dl.Multipart.x_dl x')) ->
+     (forall x, (forall t c, nth_error tab0 t = Some c -> In t (map Wr.r_tgt ridx) -> ~ LP.in_ext doff c x) ->
+                Wr.fget (Wr.d_file (Dl.Multipart.x_dl x')) x = Wr.fget file x) ->
+     place (LP.Hc H ds) (map Wr.r_tgt ridx) 0 (LP.absr ul doff fb 0 tab0 file) =
+       (LP.absr ul doff fb 0 (Wr.d_tab (Dl.Multipart.x_dl x')) (Wr.d_file (Dl.Multipart.x_dl x')), true)).
+Proof. exact LC.link_place_multipart. Qed.
+Print Assumptions C04_link_place_multipart_partial.
